@@ -17,13 +17,12 @@ namespace BV.C12
 def WITNESS_SCALE : Nat := 4
 def MAX_BLOCK_WEIGHT : Nat := 4000000
 def MAX_BLOCK_SIGOPS_COST : Nat := 80000
-/-- `blockHeaderOverhead` = 80-byte header + 9-byte maximal varint. -/
+/-- 80-byte header + 9-byte maximal transaction-count varint: what a generator must reserve at least
+(`Env.headerOverhead` is the value the implementation actually reserves). -/
 def BLOCK_HEADER_OVERHEAD : Nat := 89
 def MAX_VARINT_PAYLOAD : Nat := 9
 def COINBASE_WITNESS_DATA_LEN : Nat := 32
 def COINBASE_WITNESS_PKSCRIPT_LEN : Nat := 38
-/-- IEEE-754 bits of `MinHighPriority = 1e8 * 144 / 250 = 57 600 000.0`. -/
-def MIN_HIGH_PRIORITY_BITS : Nat := 4722999750989709312
 def LOCKTIME_THRESHOLD : Nat := 500000000
 def BASE_SUBSIDY : Nat := 5000000000
 def U32 : Nat := 4294967296
@@ -112,6 +111,11 @@ structure Env where
   maxWeight : Nat
   prioSize : Nat
   minFreeFee : Int
+  /-- internal policy / tuning values of the generator, read from the tree by the harness and passed
+  on the line (the model is parametric in them): the order key of `MinHighPriority` and the bytes
+  reserved for header + transaction count (`blockHeaderOverhead`) -/
+  minHighPrio : Nat := 4722999750989709312
+  headerOverhead : Nat := 89
   deriving Repr, Inhabited
 
 def isCoinbase (t : Tx) : Bool :=
@@ -401,9 +405,9 @@ def selectCore {Q : Type} (ops : QueueOps Q) (e : Env) (s : St Q) (it : Item) (t
   else if s.sigCost + cost > MAX_BLOCK_SIGOPS_COST then s
   else if s.byFee && it.feePerKB < e.minFreeFee && bpw ≥ e.minWeight then s
   else
-    let switch := !s.byFee && (bpw ≥ e.prioSize || it.prio ≤ MIN_HIGH_PRIORITY_BITS)
+    let switch := !s.byFee && (bpw ≥ e.prioSize || it.prio ≤ e.minHighPrio)
     let s1 : St Q := if switch then switchSt ops s else s
-    if switch && (bpw > e.prioSize || it.prio < MIN_HIGH_PRIORITY_BITS) then
+    if switch && (bpw > e.prioSize || it.prio < e.minHighPrio) then
       { s1 with queue := ops.push true s1.queue it }
     else if !checkInputs s1.view e t then s1
     else if !t.scriptsOk then s1
@@ -440,7 +444,7 @@ structure Template where
   commitment : Bool
   deriving Repr, DecidableEq
 
-def initWeight (e : Env) : Nat := (BLOCK_HEADER_OVERHEAD * WITNESS_SCALE + e.cbWeight) % U32
+def initWeight (e : Env) : Nat := (e.headerOverhead * WITNESS_SCALE + e.cbWeight) % U32
 
 def initSt {Q : Type} (e : Env) (p : Prep Q) : St Q :=
   { queue := p.queue, waiting := p.waiting, byFee := e.prioSize == 0, blockWeight := initWeight e,
